@@ -52,6 +52,11 @@ Round 5
   `FormFieldBinder` all start with no errors and fail-fast ON; a chain may run without any
   `FailFast` call (wire case 3).
 
+Round 7
+* `VB.efNil` / `VB.firstNil`: the public `ErrorFunc` may return nil.  `setError` records whatever it
+  returns, so the count — and with it the fail-fast test and the slice guard `b.errors == nil` —
+  does not depend on it; only `BindError()` (which hands out `errors[0]`) does.
+
 Platform assumption: `int`/`uint` are 64 bits (`strconv.IntSize = 64`).
 -/
 namespace C08
@@ -285,9 +290,22 @@ def zeroOf : Elem → SVal
 structure VB where
   errors : Nat        -- len(b.errors)
   failFast : Bool
+  efNil : Bool        -- configuration (round 7): the application's `ErrorFunc` returns nil
+  firstNil : Bool     -- `b.errors[0] == nil` (meaningful only while `errors ≠ 0`): what `BindError()` hands out
 deriving DecidableEq, Repr, Inhabited
 
-def VB.addErr (b : VB) : VB := { b with errors := b.errors + 1 }
+/-- a binder with the default `ErrorFunc` -/
+def vb (n : Nat) (ff : Bool) : VB := ⟨n, ff, false, false⟩
+
+/-- `b.setError(b.ErrorFunc(…))`: WHATEVER the ErrorFunc returns — nil included — is recorded
+    (`if b.errors == nil { b.errors = []error{err} } else append`), so `b.errors != nil` afterwards -/
+def VB.addErr (b : VB) : VB :=
+  { b with errors := b.errors + 1, firstNil := if b.errors = 0 then b.efNil else b.firstNil }
+
+/-- `b.errors = append(b.errors, errs...)` for the `n` (non-nil) errors a custom function returned -/
+def VB.addCustom (b : VB) (n : Nat) : VB :=
+  if n = 0 then b
+  else { b with errors := b.errors + n, firstNil := if b.errors = 0 then false else b.firstNil }
 
 /-- the public constructors of a value binder -/
 inductive Ctor where
@@ -299,9 +317,9 @@ deriving DecidableEq, Repr, Inhabited
 /-- what each constructor returns: no errors, fail-fast enabled ("Enabled by default") — one line per
     constructor, as in the code -/
 def newBinder : Ctor → VB
-  | .query => ⟨0, true⟩
-  | .path => ⟨0, true⟩
-  | .form => ⟨0, true⟩
+  | .query => ⟨0, true, false, false⟩
+  | .path => ⟨0, true, false, false⟩
+  | .form => ⟨0, true, false, false⟩
 
 /-- `b.failFast && b.errors != nil` -/
 def VB.frozen (b : VB) : Bool := b.failFast && b.errors != 0
@@ -416,7 +434,7 @@ deriving Repr, Inhabited
 def customStep (b : VB) (c : Custom) : VB × DVal :=
   if b.frozen then (b, c.init)
   else if c.values = [] then ((if c.must then b.addErr else b), c.init)
-  else ({ b with errors := b.errors + c.errs }, c.result)
+  else (b.addCustom c.errs, c.result)
 
 inductive Op where
   | call (c : Call)
@@ -441,7 +459,7 @@ def vbStep (ext : Ext) (b : VB) : Op → VB × Out
     let r := customStep b c
     (r.1, .call r.2 (r.1.errors - b.errors))
   | .failFast v => ({ b with failFast := v }, .nothing)
-  | .bindError => ({ b with errors := 0 }, .err (b.errors != 0))
+  | .bindError => ({ b with errors := 0 }, .err (b.errors != 0 && !b.firstNil))   -- returns errors[0], which may be nil
   | .bindErrors => ({ b with errors := 0 }, .errs b.errors)
 
 def vbRun (ext : Ext) : VB → List Op → List Out
@@ -710,8 +728,8 @@ def extOf (t : List (Nat × List Char × Option (List Char))) : Ext := fun k s =
   | none => none
 
 inductive Case where
-  | vb (failFast : Bool) (ops : List Op)
-  | vbDefault (c : Ctor) (ops : List Op)      -- fresh binder of that constructor, no FailFast call
+  | vb (failFast : Bool) (efNil : Bool) (ops : List Op)
+  | vbDefault (c : Ctor) (efNil : Bool) (ops : List Op)      -- fresh binder of that constructor, no FailFast call
   | struct (fields : List Field)
   | struct2 (fields : List (Field × Option (List (List Char))))
 
@@ -721,15 +739,17 @@ def pCase : P (List (Nat × List Char × Option (List Char)) × Case) := do
   match k with
   | 0 => do
     let ff ← bool
+    let en ← bool
     let ops ← list pOp
-    pure (t, .vb ff ops)
+    pure (t, .vb ff en ops)
   | 3 => do
     let c ← nat
+    let en ← bool
     let ops ← list pOp
     match c with
-    | 0 => pure (t, .vbDefault .query ops)
-    | 1 => pure (t, .vbDefault .path ops)
-    | 2 => pure (t, .vbDefault .form ops)
+    | 0 => pure (t, .vbDefault .query en ops)
+    | 1 => pure (t, .vbDefault .path en ops)
+    | 2 => pure (t, .vbDefault .form en ops)
     | _ => failure
   | 1 => do
     let fs ← list pField
@@ -746,8 +766,8 @@ def pCase : P (List (Nat × List Char × Option (List Char)) × Case) := do
 def runLine (line : String) : String :=
   match parseLine pCase line with
   | none => "bad-op"
-  | some (t, .vb ff ops) => render ((vbRun (extOf t) ⟨0, ff⟩ ops).flatMap encOut)
-  | some (t, .vbDefault c ops) => render ((vbRun (extOf t) (newBinder c) ops).flatMap encOut)
+  | some (t, .vb ff en ops) => render ((vbRun (extOf t) ⟨0, ff, en, false⟩ ops).flatMap encOut)
+  | some (t, .vbDefault c en ops) => render ((vbRun (extOf t) { newBinder c with efNil := en } ops).flatMap encOut)
   | some (t, .struct fs) =>
     let r := structBind (extOf t) fs
     render (encStatus r.1 :: encList encFVal r.2)
